@@ -409,7 +409,29 @@ def constructors_rule(ctx, facts, rid):
                 g, val = inner[2][0], inner[2][1]
                 ok = (g[0] == "call" and g[1] == "owlchess::moves::base::Move::is_well_formed" and g[2][0] == ("ref", val)
                       and val[0] == "agg" and val[1] == MOVE)
-        r.check(ok, "Move::new/gate", "Move::new is not `is_well_formed().then_some(mv).ok_or(..)`: %s" % s, site=ctx.site(fn), what="Move::new gated by is_well_formed")
+        if not ok:
+            # any other shape: on every path, Ok(mv) only under `mv.is_well_formed()` tested true on that very aggregate
+            n_ok = n_bad = 0
+            for events, choices in tree_paths(tree):
+                if events[-1][0] != "ret":
+                    continue
+                rv = unstamp(path_value(events[-1][1], choices))
+                if rv[0] == "agg" and rv[2] == "Ok":
+                    val = rv[3][0]
+                    gated = False
+                    for e in events:
+                        if e[0] == "branch":
+                            d = unstamp(path_value(e[1], choices))
+                            truth = not (e[2] != "else" and 0 in e[2])
+                            if d[0] == "call" and d[1] == "owlchess::moves::base::Move::is_well_formed" and d[2][0] == ("ref", val) and truth:
+                                gated = True
+                    if gated and val[0] == "agg" and val[1] == MOVE:
+                        n_ok += 1
+                    else:
+                        n_bad += 1
+            ok = n_ok >= 1 and n_bad == 0
+        r.check(ok, "Move::new/gate", "Move::new returns Ok(mv) on a path where mv.is_well_formed() was not tested true: %s" % s, site=ctx.site(fn),
+                what="Move::new gated by is_well_formed")
     # from_castling yields well-formed moves: evaluated through is_well_formed's own table (4 cases)
     fc = facts.fns.get("owlchess::moves::base::Move::from_castling")
     if fc is None:
